@@ -77,7 +77,7 @@ impl ConstLargeDivisor {
     /// what ConstLargeDivisor::new establishes from a `Large` buffer (>= 3 words, top word non-zero) via div::normalize
     pub open spec fn wf(&self) -> bool {
         let n = self.normalized_divisor@.len() as int;
-        n >= 3 && n <= usize::MAX && self.shift < WORD_BITS
+        n >= 3 && 2 * n <= usize::MAX && self.shift < WORD_BITS      // (the words came out of a Buffer)
         && self.fast_div_top.wf()
         && self.fast_div_top.divisor() == self.normalized_divisor@[n - 2] as int + (self.normalized_divisor@[n - 1] as int) * B()
         && val(self.normalized_divisor@) % pow2(self.shift as int) == 0
